@@ -46,6 +46,8 @@ def run(ck):
     duplicate(ck)
     regexp(ck)
     seq(ck)
+    builders(ck)
+    severity_comparisons(ck)
 
 
 def level(ck):
@@ -110,6 +112,55 @@ def level(ck):
         ck.ob("C16-O1", sitestr(fl, rs[0]), not bad, "%d/%d (type, threshold) pairs evaluated on the extracted table agree with severity >= threshold" % (n_eval, n_eval) if not bad else
               "wrong verdicts: %s" % bad[:6], key="LevelFilter::filter|verdict")
     level_threshold_writers(ck, F)
+
+def builders(ck):
+    """C16-O6: the fluent builder is how the filters get into a pipeline"""
+    from rules.oth import builder_fidelity
+    F = ck.facts
+    ck.rule("C16-O6", "SimplePipeline::filterLevel / filter(regexp) / filterDuplicate / addSeqNumber add exactly one handler of the documented class, built from the caller's argument unchanged, on every path; "
+                      "no merging with an earlier handler, no substitute handler for 'simple' arguments")
+    SP = "QtLogger::SimplePipeline"
+    n = 0
+    for nm, cls, sel in (("filterLevel", "QtLogger::LevelFilter", None), ("filterDuplicate", "QtLogger::DuplicateFilter", None), ("addSeqNumber", "QtLogger::SeqNumberAttr", None),
+                         ("filter", "QtLogger::RegExpFilter", lambda f: f.params and "QString" in f.params[0].get("type", ""))):
+        fs = [f for f in F.fn_all(SP + "::" + nm) if f.body is not None and (sel is None or sel(f))]
+        ck.require(len(fs) == 1, "SimplePipeline::%s: %d definitions found" % (nm, len(fs)))
+        ck.touch(fs[0])
+        builder_fidelity(ck, F, "C16-O6", fs[0], cls, "%s" % nm)
+        n += 1
+    return n
+
+
+def severity_comparisons(ck):
+    """C16-O7: QtMsgType's numeric order is debug(0) warning(1) critical(2) fatal(3) info(4): comparing or taking the larger of two
+    message types by their enumerator values is not a comparison of severities."""
+    F = ck.facts
+    ck.rule("C16-O7", "no ordering of two message types by their enumerator values anywhere in the library (qMax/qMin/std::max/std::min on QtMsgType, <,>,<=,>= between two non-constant QtMsgType values): "
+                      "severity is compared through LevelFilter::priority()")
+    def is_mt(x):
+        x = skip_copies(x) if isinstance(x, dict) else None
+        while isinstance(x, dict) and x.get("k") == "cast":
+            if (x.get("type") or "").replace("const ", "").strip() == "QtMsgType":
+                return True
+            x = skip_copies(x.get("e"))
+        return isinstance(x, dict) and (x.get("type") or "").replace("const ", "").replace("&", "").strip() == "QtMsgType"
+    sites = 0
+    for f in F.fns.values():
+        if f.body is None or not (f.file or "").startswith("src/qtlogger") and "qtlogger" not in (f.file or ""):
+            continue
+        for n in f.all_nodes():
+            bad = None
+            if n.get("k") == "call" and (n.get("callee") or "").split("::")[-1].split("<")[0] in ("qMax", "qMin", "max", "min", "qBound", "clamp") and len(n.get("args", [])) >= 2 and all(is_mt(a) for a in n["args"][:2]):
+                bad = "%s of two message types" % (n.get("callee") or "").split("<")[0]
+            elif n.get("k") == "binop" and n.get("op") in ("<", ">", "<=", ">=") and is_mt(n.get("lhs")) and is_mt(n.get("rhs")) and const_int(n.get("lhs")) is None and const_int(n.get("rhs")) is None:
+                bad = "%s between two message types" % n.get("op")
+            if bad:
+                sites += 1
+                ck.ob("C16-O7", sitestr(f, n), False, "%s: %s orders them by enumerator value, where info (4) ranks above fatal (3) and warning (1) below it" % (f.name.split("QtLogger::")[-1], bad),
+                      key="severity-by-enum|%s" % f.name.split("::")[-1])
+    if not sites:
+        ck.ob("C16-O7", "(library)", True, "no ordering of message types by enumerator value in %d functions" % sum(1 for f in F.fns.values() if f.body is not None), key="severity-by-enum|none")
+
 
 def duplicate(ck):
     F = ck.facts
